@@ -22,9 +22,10 @@ import (
 // store file must hold every acknowledged change. Fake clock (synctest), real file.
 
 type phaseStep struct {
-	Op    opSpec `json:"op"`
-	After int64  `json:"after_ns"` // sleep after the acknowledgement
-	Park  bool   `json:"park"`     // then let every goroutine run until it blocks (synctest.Wait)
+	Reload bool   `json:"reload,omitempty"` // instead of a change: POST reload-users on the file nobody touched
+	Op     opSpec `json:"op"`
+	After  int64  `json:"after_ns"` // sleep after the acknowledgement
+	Park   bool   `json:"park"`     // then let every goroutine run until it blocks (synctest.Wait)
 }
 
 type phasePlan struct {
@@ -54,8 +55,14 @@ func drawPhasePlan(rt *rapid.T) phasePlan {
 		p.Prev[names[i]] = i
 	}
 	state := applyModel(p.Prev, opSpec{})
-	n := rapid.IntRange(1, 4).Draw(rt, "nsteps")
+	n := rapid.IntRange(1, 5).Draw(rt, "nsteps")
 	for i := 0; i < n; i++ {
+		if i > 0 && rapid.IntRange(0, 3).Draw(rt, "reload") == 0 {
+			p.Steps = append(p.Steps, phaseStep{Reload: true,
+				After: rapid.SampledFrom(delays).Draw(rt, "after"),
+				Park:  rapid.Bool().Draw(rt, "park")})
+			continue
+		}
 		name := names[rapid.IntRange(0, 3).Draw(rt, "name")]
 		var op opSpec
 		if _, ok := state[name]; !ok {
@@ -76,43 +83,45 @@ func drawPhasePlan(rt *rapid.T) phasePlan {
 // phaseAtCancel is the reference model of the documented debounce (1-slot queue + 5 s
 // cool-down): which phase is the save machinery in when shutdown begins, and is a change still
 // unsaved at that instant?
-func phaseAtCancel(p phasePlan) (phase string, unsaved bool) {
+func phaseAtCancel(p phasePlan) (phase string, unsaved bool, reloadPending, reloadPendingAfterSave bool) {
 	const cool = int64(5 * time.Second)
 	now := int64(0)
 	coolingUntil := int64(-1) // >=0: a cool-down is running and ends (with a save) at that time
 	dirty := false            // acknowledged change not yet written
-	queued := false           // a job token sits in the queue while cooling
+	saves := 0
 	advance := func(to int64) {
 		for coolingUntil >= 0 && coolingUntil <= to {
-			// save happens at coolingUntil
-			dirty = false
-			end := coolingUntil
+			dirty = false // the save happens at coolingUntil; a token queued meanwhile is cleared before it
+			saves++
 			coolingUntil = -1
-			if queued { // token enqueued during the cool-down was cleared before the save
-				queued = false
-			}
-			_ = end
 		}
 		now = to
 	}
 	lastImmediate := false
 	for _, s := range p.Steps {
-		dirty = true
-		if coolingUntil < 0 {
-			coolingUntil = now + cool
+		if s.Reload {
+			if dirty {
+				reloadPending = true
+				if saves > 0 {
+					reloadPendingAfterSave = true
+				}
+			}
 		} else {
-			queued = true
+			dirty = true
+			if coolingUntil < 0 {
+				coolingUntil = now + cool
+			}
 		}
-		lastImmediate = s.After == 0 && !s.Park
+		lastImmediate = !s.Reload && s.After == 0 && !s.Park
 		advance(now + s.After)
 	}
 	switch {
 	case !dirty:
-		return "idle-after-save", false
+		return "idle-after-save", false, reloadPending, reloadPendingAfterSave
 	case lastImmediate && coolingUntil == now+cool:
-		return "queued", true // the job was put in the queue and shutdown begins before the saver could take it
+		return "queued", true, reloadPending, reloadPendingAfterSave // the job was queued and shutdown begins before the saver could take it
 	default:
-		return "cooling-down", true
+		return "cooling-down", true, reloadPending, reloadPendingAfterSave
 	}
 }
 
@@ -131,7 +140,8 @@ func runPhasePlan(t *testing.T, p phasePlan, dir string) phaseResult {
 			return res
 		}
 		state := applyModel(p.Prev, opSpec{})
-		var harness string
+		var harness, lostMidPlan string
+		reloadSeen := false
 		synctest.Test(t, func(t *testing.T) {
 			rig, err := credx.NewRig(path, kl, p.Stores, nil)
 			if err != nil {
@@ -144,13 +154,31 @@ func runPhasePlan(t *testing.T, p phasePlan, dir string) phaseResult {
 				synctest.Wait()
 			}
 			for _, s := range p.Steps {
-				if code := doOp(rig, kl, s.Op); code < 200 || code > 299 {
-					harness = fmt.Sprintf("%+v -> %d", s.Op, code)
-					cancel()
-					rig.Stop()
-					return
+				if s.Reload {
+					// nobody has touched the file: this must not change anything
+					reloadSeen = true
+					if code, body := rig.Reload(); code < 200 || code > 299 {
+						harness = fmt.Sprintf("reload of the untouched file -> %d %s", code, body)
+						cancel()
+						rig.Stop()
+						return
+					}
+				} else {
+					if code := doOp(rig, kl, s.Op); code < 200 || code > 299 {
+						if reloadSeen {
+							// every request of a plan is valid against the acknowledged state; after a
+							// reload of the untouched file one is refused: acknowledged state was lost
+							lostMidPlan = fmt.Sprintf("%s(%s) is valid against the acknowledged state %s but was answered %d after a reload of the untouched file",
+								s.Op.Op, s.Op.Name, credx.Show(users(kl, state), kl), code)
+						} else {
+							harness = fmt.Sprintf("%+v -> %d", s.Op, code)
+						}
+						cancel()
+						rig.Stop()
+						return
+					}
+					state = applyModel(state, s.Op)
 				}
-				state = applyModel(state, s.Op)
 				if s.After > 0 {
 					time.Sleep(time.Duration(s.After))
 				}
@@ -164,6 +192,13 @@ func runPhasePlan(t *testing.T, p phasePlan, dir string) phaseResult {
 		if harness != "" {
 			res.violation = "HARNESS " + harness
 			return res
+		}
+		if lostMidPlan != "" {
+			res.lost++
+			if res.violation == "" {
+				res.violation = fmt.Sprintf("SIG=C20/%s start on %s: %s", sigLostByReload, credx.Show(users(kl, p.Prev), kl), lostMidPlan)
+			}
+			continue
 		}
 		b, err := os.ReadFile(path)
 		if err != nil {
@@ -181,10 +216,20 @@ func runPhasePlan(t *testing.T, p phasePlan, dir string) phaseResult {
 			if res.violation == "" {
 				var sb strings.Builder
 				for _, s := range p.Steps {
-					fmt.Fprintf(&sb, "%s(%s) acknowledged, +%v%s; ", s.Op.Op, s.Op.Name, time.Duration(s.After), map[bool]string{true: ", all goroutines parked", false: ""}[s.Park])
+					what := fmt.Sprintf("%s(%s) acknowledged", s.Op.Op, s.Op.Name)
+					if s.Reload {
+						what = "POST reload-users (file untouched) -> 2xx"
+					}
+					fmt.Fprintf(&sb, "%s, +%v%s; ", what, time.Duration(s.After), map[bool]string{true: ", all goroutines parked", false: ""}[s.Park])
+				}
+				sig := sigNotSaved
+				for _, s := range p.Steps {
+					if s.Reload {
+						sig = sigLostByReload // a different mechanism: the reload of the untouched file threw the change away
+					}
 				}
 				res.violation = fmt.Sprintf("SIG=C20/%s start on %s (save goroutine parked first: %v); %scancel; Stop returned; store file holds %s, acknowledged state is %s",
-					sigNotSaved, credx.Show(users(kl, p.Prev), kl), p.ParkFirst, sb.String(), credx.Show(got, kl), credx.Show(want, kl))
+					sig, credx.Show(users(kl, p.Prev), kl), p.ParkFirst, sb.String(), credx.Show(got, kl), credx.Show(want, kl))
 			}
 		}
 	}
@@ -195,12 +240,12 @@ func runPhasePlan(t *testing.T, p phasePlan, dir string) phaseResult {
 }
 
 var recPhases = ev.New("C20", "shutdown-phases",
-	"rapid plans on a fake clock: 1-4 acknowledged changes, each followed by a delay from {0,1ns,1ms,2.5s,5s-1ns,5s,5s+1ns,6s,11s} and "+
+	"rapid plans on a fake clock: 1-5 steps, each an acknowledged change or (1 in 4) a POST reload-users on the file nobody touched, each followed by a delay from {0,1ns,1ms,2.5s,5s-1ns,5s,5s+1ns,6s,11s} and "+
 		"optionally synctest.Wait (save goroutine parked), then cancel + Stop; save goroutine parked or not before the first request; each plan "+
 		"repeated 3-10 times because select order is random. After Stop the decoded store file must equal the acknowledged state. One "+
 		"evaluation = one repetition. Non-trivial: at cancel a change is unsaved (phase queued or cooling-down per the reference debounce model). "+
 		"Distinct key = phase + delays + parks").
-	Require("phase/queued", "phase/cooling-down", "phase/idle-after-save")
+	Require("phase/queued", "phase/cooling-down", "phase/idle-after-save", "reload-of-unmodified-file-with-change-pending-after-an-earlier-save")
 
 func TestShutdownPhases(t *testing.T) {
 	dir, err := os.MkdirTemp(workDir(), "verif-c20-p-")
@@ -211,21 +256,30 @@ func TestShutdownPhases(t *testing.T) {
 	rapid.Check(t, func(rt *rapid.T) {
 		p := drawPhasePlan(rt)
 		res := runPhasePlan(t, p, dir)
-		phase, unsaved := phaseAtCancel(p)
+		phase, unsaved, reloadPending, reloadPendingAfterSave := phaseAtCancel(p)
 		if res.violation != "" {
 			if strings.Contains(res.violation, "SIG=C20/"+sigNotSaved) && isKnown(sigNotSaved) {
 				recPhases.KnownHit(listedSig(sigNotSaved))
+			} else if strings.Contains(res.violation, "SIG=C20/"+sigLostByReload) && isKnown(sigLostByReload) {
+				recPhases.KnownHit(listedSig(sigLostByReload))
 			} else {
 				rt.Fatalf("%s\n  phase at cancel (model): %s\n  plan: %s", res.violation, phase, p)
 			}
 		}
 		var ds []string
 		for _, s := range p.Steps {
-			ds = append(ds, fmt.Sprintf("%d%v", s.After, s.Park))
+			ds = append(ds, fmt.Sprintf("%d%v%v", s.After, s.Park, s.Reload))
+		}
+		extra := []string{"phase/" + phase, fmt.Sprintf("steps/%d", len(p.Steps))}
+		if reloadPending {
+			extra = append(extra, "reload-of-unmodified-file-with-change-pending")
+		}
+		if reloadPendingAfterSave {
+			extra = append(extra, "reload-of-unmodified-file-with-change-pending-after-an-earlier-save")
 		}
 		key := fmt.Sprintf("%s/%v/%s", phase, p.ParkFirst, strings.Join(ds, ","))
 		for i := 0; i < p.Reps; i++ {
-			recPhases.Case(key, unsaved, "phase/"+phase, fmt.Sprintf("steps/%d", len(p.Steps)))
+			recPhases.Case(key, unsaved || reloadPending, extra...)
 		}
 		if unsaved {
 			recPhases.Sample(map[string]any{"plan": p, "phase": phase})
@@ -240,19 +294,36 @@ func TestRegressionAckThenStop(t *testing.T) {
 		t.Fatal(err)
 	}
 	defer os.RemoveAll(dir)
+	plans := []phasePlan{}
 	for _, park := range []bool{true, false} {
-		p := phasePlan{KeyLen: 16, Stores: credx.Both, Prev: map[string]int{}, ParkFirst: park,
-			Steps: []phaseStep{{Op: opSpec{"add", "alice", 1}}}, Reps: 60}
+		plans = append(plans, phasePlan{KeyLen: 16, Stores: credx.Both, Prev: map[string]int{}, ParkFirst: park,
+			Steps: []phaseStep{{Op: opSpec{"add", "alice", 1}}}, Reps: 60})
+	}
+	// a change is saved; a second change is cooling down; the untouched file is reloaded; shutdown
+	plans = append(plans, phasePlan{KeyLen: 32, Stores: credx.Both, Prev: map[string]int{"carol": 0}, ParkFirst: true, Reps: 20,
+		Steps: []phaseStep{{Op: opSpec{"add", "alice", 1}, After: int64(6 * time.Second), Park: true},
+			{Op: opSpec{"add", "bob", 2}, After: int64(time.Second), Park: true}, {Reload: true, After: int64(time.Millisecond)}}})
+	for _, p := range plans {
+		park := p.ParkFirst
 		res := runPhasePlan(t, p, dir)
 		if res.violation != "" {
 			if strings.Contains(res.violation, sigNotSaved) && isKnown(sigNotSaved) {
 				recPhases.KnownHit(listedSig(sigNotSaved))
 				continue
 			}
+			if strings.Contains(res.violation, sigLostByReload) && isKnown(sigLostByReload) {
+				recPhases.KnownHit(listedSig(sigLostByReload))
+				continue
+			}
 			t.Errorf("%s\n  plan: %s", res.violation, p)
 		}
+		phase, _, _, rpas := phaseAtCancel(p)
+		labels := []string{"phase/" + phase, "regression"}
+		if rpas {
+			labels = append(labels, "reload-of-unmodified-file-with-change-pending-after-an-earlier-save")
+		}
 		for i := 0; i < p.Reps; i++ {
-			recPhases.Case(fmt.Sprintf("regression/%v", park), true, "phase/queued", "regression")
+			recPhases.Case(fmt.Sprintf("regression/%v/%d", park, len(p.Steps)), true, labels...)
 		}
 	}
 }
